@@ -3677,9 +3677,14 @@ impl<'a, const HAS_CR: bool> Parser<'a, HAS_CR> {
             let close = if open == b'{' { b'}' } else { b']' };
             let mut depth = 1;
             i += 1;
+            // A quote opens a quoted scalar only where a token starts; inside a plain
+            // scalar (`[a"b, c]`) it is content, and skipping to the "closing" quote
+            // from there ran past the collection's own end.
+            let mut at_token_start = true;
             while i < self.input.len() && depth > 0 {
                 match self.input[i] {
-                    b'"' | b'\'' => {
+                    b'"' | b'\'' if at_token_start => {
+                        at_token_start = false;
                         // Skip quoted string inside the flow
                         let quote = self.input[i];
                         i += 1;
@@ -3704,12 +3709,22 @@ impl<'a, const HAS_CR: bool> Parser<'a, HAS_CR> {
                     c if c == open => {
                         depth += 1;
                         i += 1;
+                        at_token_start = true;
                     }
                     c if c == close => {
                         depth -= 1;
                         i += 1;
+                        at_token_start = false;
                     }
-                    _ => i += 1,
+                    b',' | b':' | b'[' | b'{' => {
+                        i += 1;
+                        at_token_start = true;
+                    }
+                    b' ' | b'\t' | b'\n' | b'\r' => i += 1,
+                    _ => {
+                        i += 1;
+                        at_token_start = false;
+                    }
                 }
             }
             // After the flow, check for colon - can be adjacent (no space required)
